@@ -197,6 +197,8 @@ def miter(cfg, out, stats):
             if not replay_miter(v):
                 raise Inconclusive("miter counterexample does not reproduce on the simulator")
             out.violations.append(v)
+            from ..bmc import mark_violation
+            mark_violation()
             return
     # vacuity twin: the conforming streams allow a complete multi-chunk write
     stats.twins += 1
